@@ -117,6 +117,17 @@ var props = []*prop{
 		Fuzz:        &fuzzCfg{Target: "FuzzC01", Seconds: 240},
 	},
 	{
+		ID: "C06", Pkg: "c06", Level: "exploration",
+		Technique:   "property-based robustness testing (rapid; native coverage-guided go fuzzing of the same property in the thorough tier) with a no-panic / non-nil-result oracle and an allow-list of exactly the documented panic",
+		LevelText:   "Degenerate-friendly schema grammar x derived, random and extreme instances x json.Number x every option subset x three registries x both entry points; each call must return normally with a non-nil result; the only panic accepted is the documented 'Invalid schema provided' one and only when an unresolvable $ref was planted. Exploration (plus coverage-guided fuzzing in thorough) suits an all-inputs crash-freedom claim.",
+		LevelNote:   "Trusted: the harness's panic capture, the generator's notion of 'references resolve' (acyclic definitions it wrote itself), go test's timeout as the termination observer (timeout = inconclusive).",
+		Assumptions: trusted,
+		Builds:      plain,
+		Quick:       budget{Shards: 14, Checks: 8000, TimeoutS: 400},
+		Thorough:    budget{Shards: 14, Checks: 200000, TimeoutS: 3000},
+		Fuzz:        &fuzzCfg{Target: "FuzzC06", Seconds: 300},
+	},
+	{
 		ID: "C14", Pkg: "c14", Level: "exploration",
 		Technique:   "property-based testing (rapid) of each exported helper against independently re-stated textbook definitions, plus purity (call twice, arguments compared with a pristine copy)",
 		LevelText:   "One generated helper invocation per case over typed argument descriptors (all numeric kinds, strings incl. invalid UTF-8, nested containers, typed/untyped nils, every operation context, nil/default/custom registries); expected verdict from definitions written on the descriptors with exact rationals and Unicode simple case folding; verdict, purity and absence of panics checked. Exploration is the right level for an all-inputs claim about 13 small pure functions.",
